@@ -654,15 +654,25 @@ func runWorkloadIn(in wlInput, scratch []byte) (out []byte) {
 			// default constructor, reader delivering big chunks, one token longer than the
 			// default buffer (forces the lexer to grow it), then ordinary tokens
 			long := bytes.ReplaceAll(d, []byte(" "), []byte("_"))
-			long = bytes.Repeat(append(long, '_'), 5000/(len(long)+1)+1)
+			want := 5000
+			if in.opt&32 != 0 {
+				want = 40000 + 1000*(in.opt%8) // the default buffer grows several times under one token
+			}
+			long = bytes.Repeat(append(long, '_'), want/(len(long)+1)+1)
+			if in.opt&32 != 0 {
+				d = append(append(append([]byte{}, d...), ' '), append(long, ' ')...) // short tokens first, then the long one
+			}
 			d = append(append(long, ' '), d...)
 			z = buffer.NewStreamLexer(&yieldReader{data: d, chunk: 1000 + in.opt})
 			every = 1 << 30
 			limit = 30000
+			if in.opt&32 != 0 {
+				limit = 200000
+			}
 		} else {
 			z = buffer.NewStreamLexerSize(&yieldReader{data: d, chunk: 1 + in.opt%6}, in.opt%9)
 		}
-		n := 0
+		n, lag := 0, 0
 		for i := 0; i < limit; i++ {
 			if i < 400 || i%64 == 0 {
 				call()
@@ -677,8 +687,13 @@ func runWorkloadIn(in wlInput, scratch []byte) (out []byte) {
 			if c == ' ' || n%every == 0 {
 				b := z.Shift()
 				t.add("shift", b)
-				if in.opt&1 == 1 {
+				switch {
+				case in.opt&1 == 1:
 					z.Free(z.ShiftLen())
+				case in.opt&2 == 2:
+					// one token late: the previous token is released when the next one is taken
+					z.Free(lag)
+					lag = z.ShiftLen()
 				}
 			}
 		}
